@@ -856,6 +856,7 @@ func (c *Compiler) writeNode(node, parent *node, recv, v, vsrc string, depth int
 					c.wl("if ", nv, ", ok := ", c.fmtV(node, v), "[", key, "]; ok {")
 				}
 				c.wl("_ = ", nv)
+				c.writeSetBackStructEntry(node, v, key, nv, depth, mode)
 				c.writeCmpNilElem(node.mapv, nv, depth, mode)
 				err := c.writeNode(node.mapv, node, recv, nv, "", depth+1, mode)
 				if err != nil {
@@ -881,6 +882,7 @@ func (c *Compiler) writeNode(node, parent *node, recv, v, vsrc string, depth int
 				c.wl(snippet)
 				c.wl(nv, " := ", c.fmtV(node, v), "[", c.fmtP(node.mapk, "k", depth+1), "]")
 				c.wl("_ = ", nv)
+				c.writeSetBackStructEntry(node, v, c.fmtP(node.mapk, "k", depth+1), nv, depth, mode)
 				c.writeCmpNilElem(node.mapv, nv, depth, mode)
 				err = c.writeNode(node.mapv, node, recv, nv, "", depth+1, mode)
 				if mode == modeSet {
@@ -1016,6 +1018,16 @@ func (c *Compiler) writeNode(node, parent *node, recv, v, vsrc string, depth int
 	}
 
 	return c.err
+}
+
+// A struct held by value in a map is changed through a local copy, a nil map held in a map is created in a local
+// variable, and the nested code returns from many places: make sure the local goes back into the map on every
+// way out (set mode only).
+func (c *Compiler) writeSetBackStructEntry(node *node, v, key, nv string, depth int, mode mode) {
+	if mode != modeSet || node.mapv.ptr || (node.mapv.typ != typeStruct && node.mapv.typ != typeMap) {
+		return
+	}
+	c.wl("defer func() { if ", c.fmtVnb(node, v, depth), " != nil { ", c.fmtV(node, v), "[", key, "] = ", nv, " } }()")
 }
 
 // Write the nil test of a pointer-typed map value or slice element the path ends on (compare mode only).
